@@ -39,6 +39,9 @@ class _Conn:
         self.env.role_set = "client"
 
     def do_handshake(self):
+        if self.env.want_read > 0:
+            self.env.want_read -= 1
+            raise self.env.ssl.WantReadError()
         if not self.env.handshake_ok:
             raise self.env.ssl.Error("handshake failed")
 
@@ -57,6 +60,13 @@ class _Conn:
 
     def bio_write(self, data):
         pass
+
+    def recv(self, n):
+        # the record layer finishes the handshake inside SSL_read and may find an application
+        # record that the peer put into the same datagram as its last flight
+        if self.env.early_app:
+            return b"early application data"
+        raise self.env.ssl.Error()
 
     def DTLSv1_get_timeout(self):
         return None
@@ -104,12 +114,23 @@ class _Ice:
     def __init__(self, role):
         self.role = role
         self.sent = []
+        self.rx = []
 
     async def _send(self, data):
         self.sent.append(data)
 
     async def _recv(self):
+        if self.rx:
+            return self.rx.pop(0)
         raise ConnectionError
+
+
+class _DataSink:
+    def __init__(self):
+        self.got = []
+
+    async def _handle_data(self, data):
+        self.got.append(data)
 
 
 class Env:
@@ -124,6 +145,8 @@ class Env:
         self.asyncio = StubAsyncio(_real_asyncio)
         self.role_set = None
         self.exported = None
+        self.want_read = 0
+        self.early_app = False
         env = self
 
         class Session:
@@ -168,6 +191,14 @@ def h_policy(ctx, nfp, algs):
         fps.append(RTCDtlsFingerprint(algorithm=ALGS[algs[i]], value=ctx.str("fp%d" % i, 2, 0x30, 0x7A)))
     with Patch(dtls, SSL=env.ssl, Policy=_Policy, Session=env.Session, certificate_digest=env.certificate_digest, asyncio=env.asyncio):
         t = _mk_transport(env, "controlling", ctx.choice("role", ["auto", "client", "server"]))
+        # the handshake may need one more datagram from the peer, and that datagram may carry an
+        # application record behind the peer's last flight
+        env.want_read = ctx.choice("handshake_waits_for_a_datagram", [0, 1])
+        if env.want_read:
+            env.early_app = ctx.choice("application_record_in_the_last_flight", [False, True])
+            t.transport.rx.append(bytes([22]) + bytes(12))
+        sink = _DataSink()
+        t._register_data_receiver(sink)
         sx.run(t.start(RTCDtlsParameters(fingerprints=fps)))
         ctx.reach("started")
         # reference policy, transcribed from the property
@@ -179,6 +210,8 @@ def h_policy(ctx, nfp, algs):
         want_connected = sx.And(handshake_ok, len(supported) >= 1, all_match, known_profile)
         ctx.check(sx.Iff(t.state == "connected", want_connected), "connected-iff-fingerprints-and-profile-valid")
         ctx.check(t.state in ("connected", "failed"), "ends-connected-or-failed")
+        if sink.got:
+            ctx.check(want_connected, "application-data-handed-over-only-from-a-validated-peer")
         if t.state == "failed":
             ctx.check(len(env.sessions) == 0, "no-srtp-session-when-not-connected")
             ctx.check(len(env.asyncio.queue) == 0 and t._task is None, "no-data-pump-when-failed")
@@ -426,9 +459,10 @@ ENC = [
     "aiortc.rtcdtlstransport:RTCDtlsTransport._send_data",
     "aiortc.rtcdtlstransport:RTCDtlsTransport._send_rtp",
     "aiortc.rtcdtlstransport:RTCDtlsTransport._set_state",
+    "aiortc.rtcdtlstransport:RTCDtlsTransport._recv_next",
 ]
 STUBS = [
-    "OpenSSL.SSL -> stub connection: handshake succeeds or raises SSL.Error by a solver-chosen flag; selected SRTP profile solver-chosen among the three known names and an unknown one; export_keying_material -> symbolic bytes",
+    "OpenSSL.SSL -> stub connection: handshake succeeds or raises SSL.Error by a solver-chosen flag, optionally after one WantReadError round whose datagram may make SSL_read return an application record; selected SRTP profile solver-chosen among the three known names and an unknown one; export_keying_material -> symbolic bytes",
     "certificate_digest -> per-algorithm symbolic 2-character upper-case hex string standing for the digest",
     "pylibsrtp Policy / Session -> recorders",
     "asyncio.ensure_future -> queue (the data pump is never run)",
